@@ -154,7 +154,7 @@ function OBSLINE(text){
 
 // judge direction: every own property of every object of the table, and of the objects the implementation
 // hangs on library objects beyond the table (registered on discovery as owner.name), raw (unmasked)
-function WALK(listedIds, instIds, noReflect){
+function WALK(listedIds, instIds, noReflect, preNames){
   // noReflect: {id: [names of the table]} for the objects whose additional properties cannot be reflected
   var listed = {}, inst = {}, unl = {}, evs = [], i;
   for (i = 0; i < listedIds.length; i++) listed[listedIds[i]] = true;
@@ -164,6 +164,7 @@ function WALK(listedIds, instIds, noReflect){
     var id = queue[q], o = REG[id], isl = listed[id] === true;
     if (!ISOBJ(o)) { evs.push({ev:"obj", id:id, listed:isl, fn:false, host:false, obs:{ty:typeof o, cls:"", proto:"", ext:false}}); continue; }
     var isfn = typeof o === "function", host = !isl && !isfn;
+    if (!isl && id.indexOf("global.") === 0 && id.split(".").length > 2 && !isfn) continue;   // not below a host object's objects
     evs.push({ev:"obj", id:id, listed:isl, fn:isfn, host:host,
               obs:{ty:typeof o, cls:CLS(o), proto:PATHOF(Object.getPrototypeOf(o)), ext:Object.isExtensible(o)}});
     var names = Object.getOwnPropertyNames(o);
@@ -174,8 +175,14 @@ function WALK(listedIds, instIds, noReflect){
       if (sk) obs = {own:"unreflected", attrs:[], ty:"", val:{t:"none"}};
       else {
         var d = Object.getOwnPropertyDescriptor(o, n);
-        // discover: an unregistered object hanging on a library object (not on the global object, not on an instance)
-        if (isl && id !== "global" && inst[id] !== true && d !== undefined && ISOBJ(d.value) && PATHOF(d.value) === "?") {
+        // discover: an unregistered object hanging on a library object (not on an instance); on the global object
+        // only host objects that were there before the harness loaded its helpers (console)
+        var disc = (isl || (host && id.indexOf("global.") === 0)) && inst[id] !== true && d !== undefined && ISOBJ(d.value) && PATHOF(d.value) === "?";
+        if (disc && id === "global") {
+          disc = false;
+          if (typeof d.value === "object") for (var pn = 0; pn < preNames.length; pn++) if (preNames[pn] === n) disc = true;
+        }
+        if (disc) {
           var nid = id + "." + n; REG[nid] = d.value; REGIDS.push(nid); queue.push(nid);
         }
         obs = OBSROW(id, n, null);
